@@ -86,12 +86,15 @@ theorem C13_upperBound_bracket (xs : List R) (v : R) (k : Nat) (hk : upperBound 
 
 /-! ### plume -/
 
-/-- **C13** a well-formed plume never indexes out of range: neither in the cross-section look-up nor when painting -/
-theorem C13_plume_no_internal (f : PlumeFeature R) (hf : f.WellFormed) (ctx : Ctx R) (q : Query R) :
+/-- **C13** a well-formed plume never indexes out of range: neither in the cross-section look-up nor when painting.
+(`hq`: the query's call-back into `World::properties`, which the `tian water content` models use, does not either; the world's
+entry points hand the features such a query, `C13_world_query_no_internal`.) -/
+theorem C13_plume_no_internal (f : PlumeFeature R) (hf : f.WellFormed) (ctx : Ctx R) (q : Query R)
+    (hq : q.worldT () ≠ .error .internal) :
     f.covers ctx q ≠ .error .internal ∧
       ∀ (ps : List Req) (bs : List (List R)), Fits ps bs → ∀ g : G,
         f.apply ctx q (ps.zip (entries ps)) bs.flatten g ≠ .error .internal :=
-  ⟨f.covers_noInt ctx q hf.1, fun ps bs hfit g => (Feature.plume f).apply_noInt hf ctx q ps bs hfit g⟩
+  ⟨f.covers_noInt ctx q hf.1, fun ps bs hfit g => (Feature.plume f).apply_noInt hf ctx q hq ps bs hfit g⟩
 
 /-- the cross-section look-up alone needs the list lengths only -/
 theorem C13_plume_covers_no_internal (f : PlumeFeature R) (hf : f.ListsOk) (ctx : Ctx R) (q : Query R) :
@@ -99,14 +102,15 @@ theorem C13_plume_covers_no_internal (f : PlumeFeature R) (hf : f.ListsOk) (ctx 
 
 /-! ### models of the area features and the plume -/
 
-/-- **C13** no model of an area feature / plume indexes out of range -/
-theorem C13_area_models_no_internal (ctx : Ctx R) (q : Query R) :
+/-- **C13** no model of an area feature / plume indexes out of range (`hq`: see `C13_plume_no_internal`; only the
+`tian water content` composition model uses it) -/
+theorem C13_area_models_no_internal (ctx : Ctx R) (q : Query R) (hq : q.worldT () ≠ .error .internal) :
     (∀ (m : TempModel R), m.WellFormed → ∀ old fMin fMax rel, m.get ctx q old fMin fMax rel ≠ .error .internal) ∧
     (∀ (m : CompModel R), m.WellFormed → ∀ n old (g : G), m.get ctx q n old g ≠ .error .internal) ∧
     (∀ (m : GrainsModel R), m.WellFormed → ∀ n old (g : G), m.get ctx q n old g ≠ .error .internal) ∧
     (∀ (m : VelModel R), m.WellFormed → ∀ old, m.get ctx q old ≠ .error .internal) :=
   ⟨fun m hm old a b r => m.get_noInt hm ctx q old a b r,
-   fun m hm n old g => m.get_noInt hm ctx q n old g,
+   fun m hm n old g => m.get_noInt hm ctx q hq n old g,
    fun m hm n old g => m.get_noInt hm ctx q n old g,
    fun m hm old => m.get_noInt hm ctx q old⟩
 
@@ -115,11 +119,12 @@ theorem C13_surface_no_internal (s : Surface R) (hs : s.WellFormed) (spherical :
     s.localValue spherical p ≠ .error .internal := s.localValue_noInt hs spherical p
 
 /-- **C13** continental plate, oceanic plate, mantle layer -/
-theorem C13_area_no_internal (f : AreaFeature R) (hf : f.IndexSafe) (ctx : Ctx R) (q : Query R) :
+theorem C13_area_no_internal (f : AreaFeature R) (hf : f.IndexSafe) (ctx : Ctx R) (q : Query R)
+    (hq : q.worldT () ≠ .error .internal) :
     f.covers ctx q ≠ .error .internal ∧
       ∀ (ps : List Req) (bs : List (List R)), Fits ps bs → ∀ g : G,
         f.apply ctx q (ps.zip (entries ps)) bs.flatten g ≠ .error .internal :=
-  ⟨f.covers_noInt hf.1 ctx q, fun ps bs hfit g => (Feature.area f).apply_noInt hf ctx q ps bs hfit g⟩
+  ⟨f.covers_noInt hf.1 ctx q, fun ps bs hfit g => (Feature.area f).apply_noInt hf ctx q hq ps bs hfit g⟩
 
 /-! ### slabs and faults -/
 
@@ -154,16 +159,23 @@ theorem C13_curved_planes_in_range (f : LineFeature R) (hf : f.WellFormed) (coor
   exact ⟨by omega, fun sec hs => by rw [hsk sec hs]; exact this.2⟩
 
 /-- **C13** a well-formed slab / fault never indexes out of range: guards, geometry, membership and painting -/
-theorem C13_line_no_internal (f : LineFeature R) (hf : f.WellFormed) (ctx : Ctx R) (q : Query R) :
+theorem C13_line_no_internal (f : LineFeature R) (hf : f.WellFormed) (ctx : Ctx R) (q : Query R)
+    (hq : q.worldT () ≠ .error .internal) :
     f.coversBody ctx q ≠ .error .internal ∧ f.covers ctx q ≠ .error .internal ∧
       (∀ (ps : List Req) (bs : List (List R)), Fits ps bs → ∀ g : G,
         f.apply ctx q (ps.zip (entries ps)) bs.flatten g ≠ .error .internal) ∧
       f.distanceToPlane ctx q ≠ .error .internal :=
   ⟨(f.coversBody_safe hf ctx q).noInt, (f.covers_safe hf ctx q).noInt,
-   fun ps bs hfit g => (Feature.line f).apply_noInt hf ctx q ps bs hfit g,
+   fun ps bs hfit g => (Feature.line f).apply_noInt hf ctx q hq ps bs hfit g,
    f.distanceToPlane_noInt hf ctx q⟩
 
 /-! ### the world -/
+
+/-- **C13** the query a well-formed world hands to its features satisfies the side condition of the feature-level statements:
+the world temperature the water-content models ask for (`World.temperaturePure`) never indexes out of range -/
+theorem C13_world_query_no_internal (w : World R) (hw : w.WellFormed) (pt : P3 R) (depth : R) :
+    w.temperaturePure pt depth ≠ .error .internal ∧ (w.query pt depth).worldT () ≠ .error .internal :=
+  ⟨w.temperaturePure_noInt hw pt depth, w.query_noInt hw pt depth⟩
 
 /-- **C13** no query entry point of a well-formed world returns the model's "indexed out of range" error:
 `properties` (3-D), `properties` (2-D, including the re-walk of the result), `distance_to_plane` -/
